@@ -240,7 +240,9 @@ PROPS["C03"] = {
             "unusable directory, up to 30 accepts of 0-12 bytes interleaved with consumer takes, confirms (before or after "
             "destroy), hand-backs, files zeroed or removed behind the buffer's back; after every operation the harness waits "
             "until the feeder goroutine is blocked (its state is read from runtime.Stack) and compares all counters and gauges, "
-            "window length, the feeder's hand and the directory contents with Buffer.step; distinct by ops; all non-trivial",
+            "window length, the feeder's hand and the directory contents with Buffer.step; concurrent-shutdown cases (Destroy racing "
+            "hand-backs from their own goroutines out of a window of 32 / 64 never-spilled chunks) are judged by the oracle alone: "
+            "conservation and byte identity of every file; distinct by ops; all non-trivial",
     "level_text": "Theorems over every generation start (any capacities, limits, directory state, files found) and every legal "
                   "operation sequence of Buffer.step: C03_conserved (each accepted / recovered chunk is exactly one of queued, in "
                   "hand, in the window, held by the consumer, confirmed, counted dropped, kept as a file), C03_shutdown_accounted "
@@ -251,16 +253,19 @@ PROPS["C03"] = {
                   "C03_window_bound, C03_recovered_first, C03_space_bound / C03_space_within_limit (the files of the directory never hold more "
                   "than persistent_chunk_bytes, and that gauge never exceeds the configured limit or what was found at the start), "
                   "C03_memory_bound (at every quiescent point every queued entry is unloaded: the loaded chunks are the window and at "
-                  "most one in the feeder's hand). Tie: state-by-state correspondence of the real buffer with the model at "
+                  "most one in the feeder's hand); C03_conserved_every_schedule, C03_fifo_every_schedule, C03_unchanged_every_schedule "
+                  "(conservation, FIFO, byte identity and the window bound for every interleaving of single feeder steps with the "
+                  "operations, from a start at which nothing has been loaded yet; the quiescing runs are among these schedules: "
+                  "C03_quiescent_runs_are_schedules). Tie: state-by-state correspondence of the real buffer with the model at "
                   "every quiescent point (counters, gauges, window, hand, file contents) and seven regenerated source facts "
                   "(non-blocking select in Accept, spill rule, recovery before feeder start, channel capacities, quota test before "
                   "the write, checked hand-back, save order at shutdown).",
     "level_note": "Trusted: Lean kernel + 3 standard axioms; sampled correspondence at quiescent points (between them the real "
                   "goroutines interleave; the harness does not explore those schedules). PARTIAL: the model writes a file atomically with its quota check, so the slack 'plus the chunks being saved "
                   "concurrently at shutdown' and the loaded chunks sitting in the input channel between quiescent points are outside "
-                  "the theorems (harness oracle only); chunks saved concurrently by consumer hand-backs and the feeder at "
-                  "shutdown are serialised by the harness.",
-    "partial": "space and memory bounds proved at quiescent points of the serialised model; shutdown concurrency serialised",
+                  "the theorems (harness oracle only); in the model a hand-back and the feeder's saving are separate atomic actions (the "
+                  "concurrent-shutdown cases run them truly concurrently against the oracle).",
+    "partial": "space and memory bounds proved at quiescent points; file writes atomic in the model (C04 models their steps)",
     "assumptions": ["chunk ids are never reused (C11_ids_increasing) and nobody else writes to the queue directory",
                     "file operations are atomic at this level (step-level disk model: C04)"],
 }
